@@ -237,6 +237,12 @@ DetailRT(v, blk, hascl, cl) ==
   IN Cond("codec-sample-missing", "missing" \notin DOMAIN z)
      \cup Cond("write-verdict-differs", blk.wr.r = exp.r)
      \cup (IF blk.wr.r = exp.r /\ exp.r = "err" THEN Cond("write-error-kind-differs", blk.wr.e = exp.e) ELSE {})
+     \* the compression choice: flag set iff the codec's output fits the writer's buffer and is strictly
+     \* shorter than its input (a tie goes out uncompressed)
+     \cup (IF blk.wr.r = "ok" /\ blk.p.t = "chunks" /\ "missing" \notin DOMAIN z /\ Len(blk.wr.bytes) >= HS(v)
+           THEN Cond("compression-choice-differs",
+                     NeedsDecompression(v, blk.wr.bytes) <=> (z.ok /\ Len(z.data) < Len(ZInput(v, blk.p))))
+           ELSE {})
      \cup (IF blk.wr.r = exp.r /\ exp.r = "ok"
            THEN Cond("written-bytes-differ", blk.wr.bytes = exp.bytes)
                 \cup Cond("reread-input-differs", blk.rd.bytes = blk.wr.bytes /\ blk.rd.hint = TrueHint(v, blk.p))
@@ -248,12 +254,72 @@ DetailRT(v, blk, hascl, cl) ==
      \cup (IF hascl THEN Cond("chunk-area-differs", blk.p.data = Area(v, cl)) ELSE {})
 
 ---------------------------------------------------------------------------
+\* "wc" events: one packet value written into buffers of many capacities.
+\*   p, zs, ref (the write into a 2048-byte buffer: r, bytes), ws = <<[cap, r, e, n, same, canary]>>
+\*   (n = length of the returned slice, same = its bytes are ref's bytes)
+PropWC(e) ==
+  IF ~Expressible(e.v, e.p) THEN {}
+  ELSE Cond("write-panics", e.ref.r \in {"ok", "err"} /\ \A j \in 1..Len(e.ws) : e.ws[j].r \in {"ok", "err"})
+       \cup Cond("write-outside-buffer", \A j \in 1..Len(e.ws) : e.ws[j].canary)
+       \cup Cond("write-reports-more-than-capacity", \A j \in 1..Len(e.ws) : e.ws[j].r = "ok" => e.ws[j].n <= e.ws[j].cap)
+       \cup Cond("partial-write-reported-as-success",
+                 \A j \in 1..Len(e.ws) : e.ws[j].r = "ok" => e.ref.r = "ok" /\ e.ws[j].same)
+       \cup Cond("write-refuses-expressible-value", \A j \in 1..Len(e.ws) : e.ws[j].cap >= MAX_PACKETSIZE => e.ws[j].r # "err")
+DetailWC(e) ==
+  IF ~Expressible(e.v, e.p) THEN {}
+  ELSE LET z == ZOf(e.v, e)
+           full == WriteWith(e.v, e.p, z, 2048)
+           L == Len(full.bytes)
+       IN Cond("codec-sample-missing", "missing" \notin DOMAIN z)
+          \cup Cond("written-bytes-differ", full.r = "ok" /\ e.ref.r = "ok" /\ e.ref.bytes = full.bytes)
+          \cup Cond("write-verdict-differs",
+                    \A j \in 1..Len(e.ws) : e.ws[j].r = (IF e.ws[j].cap < L THEN "err" ELSE "ok"))
+          \cup Cond("write-error-kind-differs", \A j \in 1..Len(e.ws) : e.ws[j].r = "err" => e.ws[j].e = "Capacity")
+          \cup Cond("written-length-differs", \A j \in 1..Len(e.ws) : e.ws[j].r = "ok" => e.ws[j].n = L)
+
+---------------------------------------------------------------------------
+\* "it" events: ChunksIter call by call on (data, nc).
+\*   r ("ok" | "panic" | "runaway"), steps = <<[pos, rem, c = [off, len, vital, seq, resend], w]>> (one per
+\*   call that returned a chunk; pos / rem = pos() / len() before the call), end = [pos, rem, w, pos_after]
+\*   (the first call that returned None), after = <<[some, w]>> (two more calls), ci (the same area through
+\*   the plain observation used for packets: list, w, api), inb
+PropIT(e) ==
+  Cond("chunks-iter-panics-or-never-ends", e.r = "ok" /\ e.ci.r = "ok")
+  \cup Cond("chunks-iter-size_hint-len-collect-panics", e.ci.r = "ok" => e.ci.api.r = "ok")
+  \cup Cond("slice-out-of-bounds", e.inb)
+DetailIT(e) ==
+  IF e.r # "ok" \/ e.ci.r # "ok" THEN {"chunk-iteration-missing"}
+  ELSE LET it == Chunks(e.v, e.data, e.nc)
+           m == Len(it.chunks)
+       IN Cond("chunk-list-differs", e.ci.list = it.chunks /\ Len(e.steps) = m
+                                     /\ \A j \in 1..Len(e.steps) : j <= m => e.steps[j].c = it.chunks[j])
+          \cup Cond("chunk-warnings-differ", SeqToSet(e.ci.w) = it.w)
+          \cup Cond("chunk-warnings-per-call-differ",
+                    /\ \A j \in 1..Len(e.steps) : j <= m => SeqToSet(e.steps[j].w) = it.cw[j]
+                    /\ SeqToSet(e.end.w) = it.endw
+                    /\ \A k \in 1..Len(e.after) : SeqToSet(e.after[k].w) = IterAfterW(it, e.nc, k))
+          \cup Cond("chunks-iter-pos-differs",
+                    /\ \A j \in 1..Len(e.steps) : j <= m => e.steps[j].pos = IterPosBefore(it, j)
+                    /\ e.end.pos = IterPosBefore(it, m + 1) /\ e.end.pos_after = Len(e.data))
+          \cup Cond("chunks-iter-remaining-differs",
+                    /\ \A j \in 1..Len(e.steps) : j <= m => e.steps[j].rem = IterLenBefore(it, j)
+                    /\ e.end.rem = 0)
+          \cup Cond("chunks-iter-not-fused", \A k \in 1..Len(e.after) : ~e.after[k].some)
+          \cup Cond("chunks-iter-size-differs",
+                    e.ci.api.r = "ok" =>
+                      LET a == e.ci.api IN
+                      /\ a.lo = m /\ a.hi = m /\ a.len = m /\ a.count = m /\ a.collect = m /\ a.extend = m
+                      /\ a.end_lo = 0 /\ a.end_hi = 0 /\ a.bounded)
+
+---------------------------------------------------------------------------
 \* events
 
 PropFails(e) ==
   CASE e.k = "hf" -> PropHF(e)
     [] e.k = "hb" -> PropHB(e)
     [] e.k = "rt" -> PropRT(e.v, e, e.hascl, e.cl, TRUE)
+    [] e.k = "wc" -> PropWC(e)
+    [] e.k = "it" -> PropIT(e)
     [] e.k = "rd" -> PropRead(e)
                      \cup (IF e.out.r = "ok"
                            THEN IF e.rw.r # "ok" THEN {"rewrite-missing"}
@@ -266,6 +332,8 @@ DetailFails(e) ==
   CASE e.k = "hf" -> DetailHF(e)
     [] e.k = "hb" -> DetailHB(e)
     [] e.k = "rt" -> DetailRT(e.v, e, e.hascl, e.cl)
+    [] e.k = "wc" -> DetailWC(e)
+    [] e.k = "it" -> DetailIT(e)
     [] e.k = "rd" -> DetailRead(e.v, e)
                      \cup (IF e.out.r = "ok" /\ e.rw.r = "ok" THEN DetailRT(e.v, e.rw, FALSE, <<>>) ELSE {})
     [] OTHER -> {}
